@@ -25,6 +25,11 @@ type Flow struct {
 	preds     map[*cfg.Block][]*cfg.Block
 	rangeVars map[token.Pos]*ast.RangeStmt
 	nbStable  map[*types.Var]int // named booleans: 0 unknown, 1 expandable (or being decided), 2 not expandable
+
+	// set while a query evaluates its Target: what the path knows (see KnownNonNil)
+	curFacts  map[string]bool
+	curRefObj types.Object
+	curRefNil bool
 }
 
 // switchOf: the expression switch a case clause belongs to (nil for type switches / select).
@@ -493,7 +498,10 @@ func (f *Flow) Reach(q Query) ([]Pt, bool) {
 			continue
 		}
 		self := key{pt.B, pt.I, factKey(st.facts)}
-		if q.Target != nil && q.Target(pt) {
+		f.curFacts = st.facts
+		hit := q.Target != nil && q.Target(pt)
+		f.curFacts = nil
+		if hit {
 			var path []Pt
 			k := self
 			for {
@@ -562,6 +570,15 @@ func (f *Flow) corrAtoms() map[string][]types.Object {
 				}
 				count[t]++
 				objs[t] = os
+				// a nil test of a local error variable is tracked even when it occurs once: whether `return err`
+				// further down is a success depends on it (IsSuccessReturn consults the facts of the path)
+				if be, ok := ast.Unparen(af.E).(*ast.BinaryExpr); ok && (be.Op == token.EQL || be.Op == token.NEQ) {
+					if id, ok := ast.Unparen(be.X).(*ast.Ident); ok && isNilIdent(f.Info, be.Y) {
+						if v, ok := f.Info.Uses[id].(*types.Var); ok && !v.IsField() && isErrorType(v.Type()) {
+							count[t]++
+						}
+					}
+				}
 			}
 		}
 	}
@@ -928,7 +945,12 @@ func (f *Flow) ReachRefined2(from Pt, obj types.Object, wantNil bool, isBool boo
 		if avoid != nil && avoid(it.pt) {
 			continue
 		}
-		if target != nil && target(it.pt) {
+		if it.fresh && !isBool {
+			f.curRefObj, f.curRefNil = obj, wantNil
+		}
+		hit := target != nil && target(it.pt)
+		f.curRefObj = nil
+		if hit {
 			var path []Pt
 			k := self
 			for {
@@ -1501,4 +1523,20 @@ func evalBoolUnder(e ast.Expr, val func(atom ast.Expr) (bool, bool)) (bool, bool
 		}
 	}
 	return val(e)
+}
+
+
+// KnownNonNil: during the evaluation of a query's Target, is local variable v known to be non-nil on the path that
+// reached the point (a branch edge `v != nil` was taken and v not assigned since, or v is the refined variable of a
+// ReachRefined query for the non-nil case)? Outside a query it answers false.
+func (f *Flow) KnownNonNil(v types.Object) bool {
+	if f.curRefObj != nil && f.curRefObj == v && !f.curRefNil {
+		return true
+	}
+	if f.curFacts != nil {
+		if isNil, has := f.curFacts[v.Name()+" == nil@"+itoa(int(v.Pos()))]; has && !isNil {
+			return true
+		}
+	}
+	return false
 }
